@@ -148,7 +148,11 @@ def run_one(prop, recipe):
     obs.raise_log = _raise_log
     _hang_start()
     try:
-        prop.run_case(recipe, obs)
+        if isinstance(recipe, dict) and recipe.get("k") == "repo-tests":
+            from rv.props import _repo_tests
+            _repo_tests.run(recipe, obs)
+        else:
+            prop.run_case(recipe, obs)
     except CaseHang:
         _hang_stop()
         _hang["hangs"] += 1
@@ -172,6 +176,18 @@ def run_one(prop, recipe):
     return obs
 
 
+def all_cases(prop, tier, seed):
+    """The property's own cases, then (if it declares REPO_TESTS) the repository's test-suite
+    run under that property's monitors: 1 hypothesis seed in the quick tier, 6 in thorough."""
+    for recipe in prop.cases(tier, seed):
+        yield recipe
+    which = getattr(prop, "REPO_TESTS", None)
+    if which:
+        from rv.props import _repo_tests
+        for j in range(1 if tier == "quick" else 6):
+            yield _repo_tests.case(which, seed * 100 + j)
+
+
 def main(argv):
     pid, tier, seed, k, K, out = argv
     seed, k, K = int(seed), int(k), int(K)
@@ -193,7 +209,7 @@ def main(argv):
     harness_errors = []
     max_per_mech = 25      # a frequent (e.g. known) mechanism must not crowd out a rare one
     per_mech = Counter()
-    for i, recipe in enumerate(prop.cases(tier, seed)):
+    for i, recipe in enumerate(all_cases(prop, tier, seed)):
         if i % K != k:
             continue
         if _hang["hangs"] >= 4:
